@@ -127,8 +127,8 @@ def handleC04 : List String → String
     | some rs, some dflt, some sec, some start, some seed, some ops =>
       let c := mkCfg rs dflt sec seed
       let payloadOK := ops.all fun op => (opLines op).all fun l => l.isEmpty || isPayload c.L l
-      let dom := isTree c.L && distinguishes c && cmdsOK c.L && asksOK c &&
-        (names c.L).contains dflt && (names c.L).contains start && payloadOK
+      let dom := isTree c.L && recognises c && ambigLeaf c && cmdsOK c.L && asksOK c &&
+        (names c.L).contains dflt && (names c.L).contains start && unambB c start && payloadOK
       let s0 : Sess := { dev := { mode := start, awaiting := none, log := [] }, cache := [], tick := 0 }
       let (mes, mms, mcs, s1) := modelRun c s0 ops
       let (ses, sms, slog) := specRun c start [] ops
@@ -145,7 +145,9 @@ def handleC04 : List String → String
     match parseLevels lv, fromHex cache, fromHex tgt, fromHex mode, seed.toNat? with
     | some rs, some cache, some tgt, some mode, some seed =>
       let c := mkCfg rs [] [] seed
-      let dom := isTree c.L && distinguishes c && (names c.L).contains mode && (names c.L).contains tgt
+      let dom := isTree c.L && recognises c && ambigLeaf c && (names c.L).contains mode &&
+        (names c.L).contains tgt &&
+        (unambB c mode || cache == mode || (mode == tgt && !(names c.L).contains cache))
       match processAcquire c.matchP (c.orc 0) c.L cache tgt (c.promptOf mode) with
       | .error e => s!"{b2s dom} error {errName (some e)} -"
       | .ok st =>
